@@ -5,6 +5,7 @@ import (
 	"math"
 	"reflect"
 	"sort"
+	"sync"
 	"time"
 	"unsafe"
 )
@@ -19,12 +20,14 @@ type Mutex struct {
 	locked bool
 	o      obj
 	rvc    rclock
+	real   sync.Mutex // outside of an execution (no scheduler) the shim is a real mutex
 }
 
 // Lock blocks until the mutex is free.
 func (m *Mutex) Lock() {
 	s := S
 	if s == nil || s.cur == nil {
+		m.real.Lock()
 		m.locked = true
 		return
 	}
@@ -41,6 +44,7 @@ func (m *Mutex) Unlock() {
 	s := S
 	if s == nil || s.cur == nil {
 		m.locked = false
+		m.real.Unlock()
 		return
 	}
 	t := s.cur
@@ -57,16 +61,141 @@ func (m *Mutex) Unlock() {
 	})
 }
 
+// RWMutex replaces sync.RWMutex: any number of readers or one writer. (No writer preference:
+// a pending Lock does not block new readers, which only removes executions a correct program
+// cannot rely on.)
+type RWMutex struct {
+	w    bool
+	r    int
+	o    obj
+	rvc  rclock // released by writers (and readers): acquired by writers
+	wvc  rclock // released by writers: acquired by readers
+	real sync.RWMutex
+}
+
+// Lock takes the write lock.
+func (m *RWMutex) Lock() {
+	s := S
+	if s == nil || s.cur == nil {
+		m.real.Lock()
+		m.w = true
+		return
+	}
+	t := s.cur
+	s.op("rw.lock", func() bool { return !m.w && m.r == 0 }, func() {
+		m.w = true
+		s.raceAcquire(t, m.rvc)
+		s.hbEvent(t, []*obj{&m.o}, 1)
+	})
+}
+
+// Unlock releases the write lock.
+func (m *RWMutex) Unlock() {
+	s := S
+	if s == nil || s.cur == nil {
+		m.w = false
+		m.real.Unlock()
+		return
+	}
+	t := s.cur
+	s.op("rw.unlock", alwaysEnabled, func() {
+		if !m.w {
+			t.panicS = "sync: Unlock of unlocked RWMutex"
+			return
+		}
+		m.w = false
+		if RaceOn {
+			c := s.raceRelease(t)
+			m.rvc = m.rvc.join(c)
+			m.wvc = m.wvc.join(c)
+		}
+		s.hbEvent(t, []*obj{&m.o}, 2)
+	})
+}
+
+// RLock takes a read lock.
+func (m *RWMutex) RLock() {
+	s := S
+	if s == nil || s.cur == nil {
+		m.real.RLock()
+		m.r++
+		return
+	}
+	t := s.cur
+	s.op("rw.rlock", func() bool { return !m.w }, func() {
+		m.r++
+		s.raceAcquire(t, m.wvc) // readers are ordered after writers only
+		s.hbEvent(t, []*obj{&m.o}, 1)
+	})
+}
+
+// RUnlock releases a read lock.
+func (m *RWMutex) RUnlock() {
+	s := S
+	if s == nil || s.cur == nil {
+		m.r--
+		m.real.RUnlock()
+		return
+	}
+	t := s.cur
+	s.op("rw.runlock", alwaysEnabled, func() {
+		if m.r == 0 {
+			t.panicS = "sync: RUnlock of unlocked RWMutex"
+			return
+		}
+		m.r--
+		if RaceOn {
+			m.rvc = m.rvc.join(s.raceRelease(t))
+		}
+		s.hbEvent(t, []*obj{&m.o}, 2)
+	})
+}
+
+type rlocker struct{ m *RWMutex }
+
+func (r rlocker) Lock()   { r.m.RLock() }
+func (r rlocker) Unlock() { r.m.RUnlock() }
+
+// RLocker is sync.RWMutex.RLocker.
+func (m *RWMutex) RLocker() sync.Locker { return rlocker{m} }
+
+// TryLock is sync.Mutex.TryLock (a scheduling point that never blocks).
+func (m *Mutex) TryLock() bool {
+	s := S
+	if s == nil || s.cur == nil {
+		if m.real.TryLock() {
+			m.locked = true
+			return true
+		}
+		return false
+	}
+	t := s.cur
+	ok := false
+	s.op("trylock", alwaysEnabled, func() {
+		if !m.locked {
+			m.locked, ok = true, true
+			s.raceAcquire(t, m.rvc)
+		}
+		s.hbEvent(t, []*obj{&m.o}, 1)
+	})
+	return ok
+}
+
 // WaitGroup replaces sync.WaitGroup.
 type WaitGroup struct {
-	n   int
-	o   obj
-	rvc rclock
+	n    int
+	o    obj
+	rvc  rclock
+	real sync.WaitGroup // outside of an execution
 }
 
 // Add adds delta.
 func (w *WaitGroup) Add(delta int) {
 	s := S
+	if s == nil || s.cur == nil {
+		w.real.Add(delta)
+		return
+	}
 	t := s.cur
 	s.op("wg.add", alwaysEnabled, func() {
 		w.n += delta
@@ -86,6 +215,10 @@ func (w *WaitGroup) Done() { w.Add(-1) }
 // Wait blocks until the counter is zero.
 func (w *WaitGroup) Wait() {
 	s := S
+	if s == nil || s.cur == nil {
+		w.real.Wait()
+		return
+	}
 	t := s.cur
 	s.op("wg.wait", func() bool { return w.n == 0 }, func() {
 		s.raceAcquire(t, w.rvc)
